@@ -515,18 +515,142 @@ fn run_frag(bops: &[BOp], fc: Option<FragmentConfig>, ops: &[Vec<String>], out: 
     }
 }
 
+/// Alternative sink types for C17: the same history must give the same bytes on any `W: Write`.
+fn run_mux_alt_sinks(bops: &[BOp], ops: &[Vec<String>], out: &mut String) {
+    use std::io::Cursor;
+    // Vec<u8>
+    let mut v: Vec<u8> = Vec::new();
+    let r1 = run_history(apply_bops(MuxerBuilder::new(&mut v), bops).build(), ops);
+    // Cursor<Vec<u8>>
+    let mut c = Cursor::new(Vec::<u8>::new());
+    let r2 = run_history(apply_bops(MuxerBuilder::new(&mut c), bops).build(), ops);
+    // real file
+    let path = std::env::temp_dir().join(format!("muxide_verif_{}_{:?}.mp4", std::process::id(), std::thread::current().id()));
+    let r3;
+    let fbytes;
+    {
+        let f = std::fs::File::create(&path).expect("temp file");
+        r3 = run_history(apply_bops(MuxerBuilder::new(f), bops).build(), ops);
+        fbytes = std::fs::read(&path).unwrap_or_default();
+        let _ = std::fs::remove_file(&path);
+    }
+    // BufWriter over a Vec
+    let mut inner: Vec<u8> = Vec::new();
+    let r4;
+    {
+        let bw = std::io::BufWriter::with_capacity(7, &mut inner);
+        r4 = run_history(apply_bops(MuxerBuilder::new(bw), bops).build(), ops);
+    }
+    out.push_str(&format!("alt vec {} {}\n", r1, hex_of_bytes(&v)));
+    out.push_str(&format!("alt cursor {} {}\n", r2, hex_of_bytes(c.get_ref())));
+    out.push_str(&format!("alt file {} {}\n", r3, hex_of_bytes(&fbytes)));
+    out.push_str(&format!("alt bufwriter {} {}\n", r4, hex_of_bytes(&inner)));
+}
+
+/// Runs a history on any writer; returns the result lines joined with '|'.
+fn run_history<W: Write>(built: Result<Muxer<W>, MuxerError>, ops: &[Vec<String>]) -> String {
+    let mut lines: Vec<String> = Vec::new();
+    let mut mux = match built {
+        Err(e) => return format!("build-err:{}", merr_str(&e)),
+        Ok(m) => Some(m),
+    };
+    for w in ops {
+        let w: Vec<&str> = w.iter().map(|s| s.as_str()).collect();
+        if mux.is_none() {
+            break;
+        }
+        let r = catch_unwind(AssertUnwindSafe(|| -> Result<Option<muxide::api::MuxerStats>, MuxerError> {
+            match w[0] {
+                "wv" => mux.as_mut().unwrap().write_video(f64_of(w[1]), &bytes_of_hex(w[2]), w[3] == "1").map(|_| None),
+                "wvd" => mux.as_mut().unwrap().write_video_with_dts(f64_of(w[1]), f64_of(w[2]), &bytes_of_hex(w[3]), w[4] == "1").map(|_| None),
+                "wa" => mux.as_mut().unwrap().write_audio(f64_of(w[1]), &bytes_of_hex(w[2])).map(|_| None),
+                "ev" => mux.as_mut().unwrap().encode_video(&bytes_of_hex(w[1]), num(w[2]) as u32).map(|_| None),
+                "ea" => mux.as_mut().unwrap().encode_audio(&bytes_of_hex(w[1]), num(w[2]) as u32).map(|_| None),
+                "fin" => match w[1] {
+                    "0" => mux.as_mut().unwrap().finish_in_place_with_stats().map(Some),
+                    "1" => mux.as_mut().unwrap().finish_in_place().map(|_| None),
+                    "2" => mux.take().unwrap().finish().map(|_| None),
+                    "3" => mux.take().unwrap().finish_with_stats().map(Some),
+                    "4" => mux.take().unwrap().flush().map(|_| None),
+                    _ => panic!("bad fin kind"),
+                },
+                _ => panic!("bad op"),
+            }
+        }));
+        match r {
+            Ok(r) => {
+                let mut s = String::new();
+                res_line(r, &mut s);
+                lines.push(s.trim().to_string());
+            }
+            Err(_) => {
+                lines.push("r panic".to_string());
+                break;
+            }
+        }
+    }
+    lines.join("|")
+}
+
+// `Muxer<W>` may be moved between threads whenever its sink may (checked by rustc for every W).
+#[allow(dead_code)]
+fn need_send<W: Write + Send>() {
+    fn is_send<T: Send>() {}
+    is_send::<Muxer<W>>();
+    is_send::<MuxerBuilder<W>>();
+}
+#[allow(dead_code)]
+fn need_sync<W: Write + Sync>() {
+    fn is_sync<T: Sync>() {}
+    is_sync::<Muxer<W>>();
+}
+#[allow(dead_code)]
+fn frag_send_sync() {
+    fn is_send_sync<T: Send + Sync>() {}
+    is_send_sync::<FragmentedMuxer>();
+}
+
 fn main() {
     std::panic::set_hook(Box::new(|_| {}));
+    let mode = std::env::var("HARNESS_MODE").unwrap_or_default();
+    if let Some(n) = mode.strip_prefix("threads:") {
+        // every thread interprets the whole input concurrently; outputs must all be identical
+        let n: usize = n.parse().unwrap();
+        let mut input = String::new();
+        io::Read::read_to_string(&mut io::stdin(), &mut input).unwrap();
+        let input = Arc::new(input);
+        let handles: Vec<_> = (0..n)
+            .map(|_| {
+                let inp = input.clone();
+                std::thread::spawn(move || {
+                    let mut out = Vec::<u8>::new();
+                    interpret(inp.as_bytes(), &mut out, false);
+                    out
+                })
+            })
+            .collect();
+        let outs: Vec<Vec<u8>> = handles.into_iter().map(|h| h.join().unwrap()).collect();
+        let same = outs.iter().all(|o| *o == outs[0]);
+        let so = io::stdout();
+        let mut so = so.lock();
+        so.write_all(&outs[0]).unwrap();
+        writeln!(so, "# threads {} identical {}", n, if same { 1 } else { 0 }).unwrap();
+        return;
+    }
     let stdin = io::stdin();
     let stdout = io::stdout();
     let mut so = stdout.lock();
+    interpret(stdin.lock(), &mut so, mode == "sinks");
+}
+
+fn interpret<R: BufRead, O: Write>(input: R, so: &mut O, alt_sinks: bool) {
     let mut kind = String::new();
     let mut id = String::new();
     let mut bops: Vec<BOp> = Vec::new();
     let mut script: Vec<Ev> = Vec::new();
     let mut ops: Vec<Vec<String>> = Vec::new();
     let mut fc: Option<FragmentConfig> = None;
-    for line in stdin.lock().lines() {
+    for line in input.lines() {
         let line = line.unwrap();
         let w: Vec<&str> = line.split(' ').filter(|s| !s.is_empty()).collect();
         if w.is_empty() {
@@ -577,7 +701,12 @@ fn main() {
                 let mut out = String::new();
                 out.push_str(&format!("case {}\n", id));
                 match kind.as_str() {
-                    "mux" => run_mux(&bops, script.clone(), &ops, &mut out),
+                    "mux" => {
+                        run_mux(&bops, script.clone(), &ops, &mut out);
+                        if alt_sinks && script.is_empty() {
+                            run_mux_alt_sinks(&bops, &ops, &mut out);
+                        }
+                    }
                     "frag" => run_frag(&bops, fc.take(), &ops, &mut out),
                     k => out.push_str(&format!("unknown-kind {}\n", k)),
                 }
